@@ -359,6 +359,25 @@ func runTracesCase(name string, t Traces, class int, opts pkg.WriterOptions) {
 					}
 				}
 			}
+			if stats["t-cases-ok"]%3 == 1 && len(t.RSs) > 0 {
+				// one converter serving a second stream (reconnect): the first stream ends with the
+				// resource the second one starts with (what a converter that remembers its last
+				// resource gets wrong), or with whatever the previous case held
+				first := Traces{RSs: []RS{t.RSs[0]}}
+				if havePrevT && stats["t-cases-ok"]%2 == 0 {
+					first = prevT
+				}
+				stats["t-converter-reuse-cases"]++
+				if mv := evalTracesReuse(first, t, opts); !allOKT(mv) {
+					for i, v := range mv {
+						if !v.ok {
+							propFail("C18", "converter-reuse-"+tmodes[i].name+"-"+v.field, fmt.Sprintf("one converter used for a second stream with a writer of its own (%s): %s; batch of the first stream: %s; batch of the second stream: %s",
+								tmodes[i].name, v.desc, clip(EncodeTraces(first), 3000), clip(EncodeTraces(t), 3000)))
+							break
+						}
+					}
+				}
+			}
 			prevT, havePrevT = t, true
 		}
 		return
